@@ -120,4 +120,218 @@ theorem addAll_rel {S T : Type} [StoreI S] [StoreI T] (R : S → T → Prop)
   | nil => intro s t h; exact h
   | cons p l ih => intro s t h; exact ih _ _ (hstep s t p.1 p.2 h)
 
+/-! ## 2. `ToProto`: the embedding of messages -/
+
+/-- the regenerated message (exact weights) ↦ the model's abstract message (weights as binary64 bit patterns, the
+    `int32` offset as its value) -/
+def pbOfGo (m : GoPb.Store Rat) : PbStore :=
+  { binCounts := m.BinCounts.map (fun p => (p.1, ratBits p.2)),
+    contiguous := m.ContiguousBinCounts.map ratBits,
+    contiguousOffset := m.ContiguousBinIndexOffset.toInt }
+
+/-- the empty message -/
+def emptyMsg : GoPb.Store Rat := { BinCounts := [], ContiguousBinCounts := [], ContiguousBinIndexOffset := 0#32 }
+
+theorem pbOfGo_empty : pbOfGo emptyMsg = {} := rfl
+
+/-! ### 2a. the dense store -/
+
+section dense
+open DDS.DStore DDS.GenDense
+
+theorem mapM_none_of_mem {α β : Type} (f : α → Option β) : ∀ (l : List α) (x : α), x ∈ l → f x = none →
+    l.mapM f = none
+  | y :: l, x, hx, hf => by
+    rw [List.mapM_cons]
+    rcases List.mem_cons.1 hx with rfl | h
+    · rw [hf]; rfl
+    · cases f y with
+      | none => rfl
+      | some b => rw [mapM_none_of_mem f l x h hf]; rfl
+
+theorem length_of_mapM {α β : Type} (f : α → Option β) : ∀ (l : List α) (cs : List β), l.mapM f = some cs →
+    cs.length = l.length
+  | [], cs, h => by
+    simp at h; subst h; rfl
+  | y :: l, cs, h => by
+    rw [List.mapM_cons] at h
+    cases hy : f y with
+    | none => rw [hy] at h; simp at h
+    | some b =>
+      rw [hy] at h
+      cases hl : l.mapM f with
+      | none => rw [hl] at h; simp at h
+      | some bs =>
+        rw [hl] at h
+        simp at h
+        subst h
+        simp [length_of_mapM f l bs hl]
+
+theorem mapM_irange_some (a : Array Rat) (off : Int) : ∀ (n : Nat) (lo : Int), 0 ≤ lo - off →
+    lo - off + n ≤ a.size →
+    (irange lo n).mapM (fun i => rd a (i - off))
+      = some ((a.toList.take ((lo - off).toNat + n)).drop (lo - off).toNat) := by
+  intro n
+  induction n with
+  | zero =>
+    intro lo h1 h2
+    rw [irange_zero]
+    simp
+  | succ n ih =>
+    intro lo h1 h2
+    rw [irange_succ_left, List.mapM_cons]
+    have hk : (lo - off).toNat < a.size := by omega
+    have hrd : rd a (lo - off) = some (a.getD (lo - off).toNat 0) := by
+      unfold rd; rw [if_pos (by omega)]
+    rw [hrd, ih (lo + 1) (by omega) (by omega)]
+    have e : (lo + 1 - off).toNat = (lo - off).toNat + 1 := by omega
+    rw [e]
+    simp only [Option.pure_def, Option.bind_eq_bind, Option.bind_some]
+    have hlen : (lo - off).toNat < (a.toList.take ((lo - off).toNat + (n + 1))).length := by
+      rw [List.length_take, Array.length_toList]; omega
+    rw [List.drop_eq_getElem_cons hlen]
+    congr 2
+    · rw [List.getElem_take, Array.getElem_toList]
+      simp [Array.getD, hk]
+    · congr 2; omega
+
+theorem mem_irange (lo : Int) (n : Nat) (k : Nat) (hk : k < n) : lo + (k : Int) ∈ irange lo n := by
+  unfold irange
+  exact List.mem_map.2 ⟨k, List.mem_range.2 hk, rfl⟩
+
+/-- the window read as one slice expression = the window read index by index -/
+theorem slice_eq_mapM (a : Array Rat) (off lo : Int) (n : Nat) (hn : 0 < n) :
+    GoSem.slice a.toList (lo - off) (lo - off + n) = (irange lo n).mapM (fun i => rd a (i - off)) := by
+  unfold GoSem.slice
+  by_cases hin : 0 ≤ lo - off ∧ lo - off + n ≤ a.size
+  · rw [if_neg (by rw [Array.length_toList]; omega), mapM_irange_some a off n lo hin.1 hin.2]
+    congr 3
+    omega
+  · rw [if_pos (by rw [Array.length_toList]; omega)]
+    symm
+    by_cases h0 : 0 ≤ lo - off
+    · apply mapM_none_of_mem _ _ (lo + ((n - 1 : Nat) : Int)) (mem_irange lo n (n - 1) (by omega))
+      unfold rd; rw [if_neg (by omega)]
+    · apply mapM_none_of_mem _ _ (lo + ((0 : Nat) : Int)) (mem_irange lo n 0 hn)
+      unfold rd; rw [if_neg (by omega)]
+
+/-- the message of a dense model store with exact weights: the window `minIndex..maxIndex` read index by index
+    (`none` = an index outside the array, a Go panic), the offset through `int32` -/
+def denseMsg (s : DStore) : Option (GoPb.Store Rat) :=
+  if s.isEmpty then some emptyMsg
+  else ((idxRange s.minIndex s.maxIndex).mapM (fun i => rd s.bins (i - s.offset))).map
+    (fun cs => { BinCounts := [], ContiguousBinCounts := cs, ContiguousBinIndexOffset := BitVec.ofInt 32 s.minIndex })
+
+/-- MAIN (dense `ToProto`; every store that is empty or has `minIndex ≤ maxIndex`, any fuel — no loop): the
+    regenerated function builds the model's message, panics exactly where the model does -/
+theorem dense_toProto (s : DStore) (fuel : Nat) (h : s.isEmpty = true ∨ s.minIndex ≤ s.maxIndex) :
+    Gen.DenseProto.DenseStore.ToProto fuel (toGen s) = toRes id (denseMsg s) := by
+  unfold Gen.DenseProto.DenseStore.ToProto denseMsg
+  rw [isEmpty_eq]
+  by_cases he : s.isEmpty = true
+  · rw [if_pos he, if_pos he]; rfl
+  · have hle : s.minIndex ≤ s.maxIndex := by rcases h with h | h; exact absurd h he; exact h
+    rw [if_neg he, if_neg he]
+    simp only [toGen_minIndex, toGen_maxIndex, toGen_offset, toGen_bins]
+    have hN : 0 < (s.maxIndex - s.minIndex + 1).toNat := by omega
+    have e1 : GoSem.mkSlice (s.maxIndex - s.minIndex + 1) (0 : Rat)
+        = some (List.replicate (s.maxIndex - s.minIndex + 1).toNat 0) := by
+      unfold GoSem.mkSlice; rw [if_neg (by omega)]
+    have e2 : s.maxIndex - s.offset + 1 = s.minIndex - s.offset + ((s.maxIndex - s.minIndex + 1).toNat : Int) := by
+      omega
+    rw [e1, e2, slice_eq_mapM _ _ _ _ hN, idxRange_eq]
+    simp only [GoSem.optR_some]
+    cases hm : (irange s.minIndex (s.maxIndex - s.minIndex + 1).toNat).mapM (fun i => rd s.bins (i - s.offset)) with
+    | none => rfl
+    | some cs =>
+      have hl : cs.length = (s.maxIndex - s.minIndex + 1).toNat := by
+        rw [length_of_mapM _ _ _ hm]; simp [irange]
+      have hc : GoSem.copySlice (List.replicate (s.maxIndex - s.minIndex + 1).toNat (0 : Rat)) cs = cs := by
+        unfold GoSem.copySlice
+        rw [List.length_replicate, ← hl, List.take_length, List.drop_replicate, Nat.sub_self]
+        simp
+      simp only [GoSem.optR_some, hc, Option.map_some, toRes_some, id]
+
+/-- an abstract message with its offset passed through `int32` -/
+def wrapOffset (m : PbStore) : PbStore := { m with contiguousOffset := wrap32 m.contiguousOffset }
+
+/-- the exact message, abstracted, is the model's `storeToProto` — up to the `int32(minIndex)` wrap -/
+theorem denseMsg_model (s : DStore) : (denseMsg s).map pbOfGo = (storeToProto (.d s)).map wrapOffset := by
+  unfold denseMsg storeToProto
+  by_cases he : s.isEmpty = true
+  · simp only [he, if_true, Option.map_some]; rfl
+  · simp only [he, Bool.false_eq_true, if_false]
+    cases (idxRange s.minIndex s.maxIndex).mapM (fun i => rd s.bins (i - s.offset)) with
+    | none => rfl
+    | some cs => rfl
+
+/-- … and exactly the model's message when `minIndex` is an `int32` (`StoreKeys32`, which the store invariant
+    `Inv` + `Bounded32` gives) -/
+theorem denseMsg_model32 (s : DStore) (h32 : StoreKeys32 (.d s)) :
+    (denseMsg s).map pbOfGo = storeToProto (.d s) := by
+  rw [denseMsg_model]
+  unfold storeToProto
+  by_cases he : s.isEmpty = true
+  · simp only [he, if_true, Option.map_some]; rfl
+  · simp only [he, Bool.false_eq_true, if_false]
+    have hm : wrap32 s.minIndex = s.minIndex := wrap32_of_I32 _ (h32 (by simpa using he))
+    cases (idxRange s.minIndex s.maxIndex).mapM (fun i => rd s.bins (i - s.offset)) with
+    | none => rfl
+    | some cs =>
+      simp only [Option.pure_def, Option.bind_eq_bind, Option.bind_some, Option.map_some, wrapOffset, hm]
+
+/-- COROLLARY: where the model builds `pb`, the regenerated `ToProto` returns a message whose abstraction is `pb`;
+    where the model panics, so does the regenerated code -/
+theorem dense_toProto_model (s : DStore) (fuel : Nat) (h : s.isEmpty = true ∨ s.minIndex ≤ s.maxIndex)
+    (h32 : StoreKeys32 (.d s)) :
+    match storeToProto (.d s) with
+    | some pb => ∃ m, Gen.DenseProto.DenseStore.ToProto fuel (toGen s) = .ok m ∧ pbOfGo m = pb ∧ m.BinCounts = []
+    | none => Gen.DenseProto.DenseStore.ToProto fuel (toGen s) = .panic := by
+  rw [dense_toProto s fuel h, ← denseMsg_model32 s h32]
+  have hb : ∀ m, denseMsg s = some m → m.BinCounts = [] := by
+    intro m hm
+    unfold denseMsg at hm
+    split at hm
+    · cases hm; rfl
+    · cases hx : (idxRange s.minIndex s.maxIndex).mapM (fun i => rd s.bins (i - s.offset)) with
+      | none => rw [hx] at hm; cases hm
+      | some cs => rw [hx] at hm; cases hm; rfl
+  cases hd : denseMsg s with
+  | none => rfl
+  | some m => exact ⟨m, rfl, rfl, hb m hd⟩
+
+/-- under the store invariant the side conditions hold -/
+theorem dense_side_of_inv (s : DStore) (h : DStore.Inv s) : s.isEmpty = true ∨ s.minIndex ≤ s.maxIndex := by
+  by_cases h0 : s.count = 0
+  · left; unfold DStore.isEmpty; simp [h0]
+  · right; exact (h.window h0).2.1
+
+theorem dense_keys32_of_inv (s : DStore) (h : DStore.Inv s) (hb : DStore.Bounded32 s) : StoreKeys32 (.d s) := by
+  intro _
+  have := h.window32 hb
+  unfold minInt32 maxInt32 at this
+  unfold I32
+  omega
+
+/-- DISAGREEMENT (not reachable under `Inv`): a non-empty store whose window is inverted (`maxIndex < minIndex - 1`):
+    Go's `make([]float64, maxIndex-minIndex+1)` panics on the negative length, the model reads an empty window -/
+def invertedEx : DStore :=
+  { kind := .plain, bins := #[1], count := 1, offset := 0, minIndex := 2, maxIndex := 0, isCollapsed := false }
+
+theorem invertedEx_gen : Gen.DenseProto.DenseStore.ToProto 0 (toGen invertedEx) = .panic := by rfl
+theorem invertedEx_model : storeToProto (.d invertedEx) = some { contiguous := [], contiguousOffset := 2 } := by
+  decide +kernel
+
+/-- the `int32` wrap of the offset, stated: a (non-invariant) store whose window starts at `2^31` -/
+def wrapEx : DStore :=
+  { kind := .plain, bins := #[1], count := 1, offset := 2 ^ 31, minIndex := 2 ^ 31, maxIndex := 2 ^ 31,
+    isCollapsed := false }
+
+theorem wrapEx_gen : Gen.DenseProto.DenseStore.ToProto 0 (toGen wrapEx)
+    = .ok { BinCounts := [], ContiguousBinCounts := [1], ContiguousBinIndexOffset := BitVec.ofInt 32 (-2 ^ 31) } := by
+  rfl
+theorem wrapEx_model : (storeToProto (.d wrapEx)).map (·.contiguousOffset) = some (2 ^ 31) := by decide +kernel
+
+end dense
+
 end DDS.GenProtoStore
